@@ -610,7 +610,10 @@ def guard_kinds(guards):
             names = {PRIMS[x[1]] for x in subterms(tst) if x[0] == "name" and x[1] in PRIMS}
             if not names:
                 continue
-            its = [x for x in subterms(tst) if x[0] == "iter"]
+            # the equation a test is about = the loop variable whose .primitive it reads (a test on an equation of a sub-jaxpr mentions
+            # the interpreted equation too, as the place the sub-jaxpr came from)
+            subjects = [x[1] for x in subterms(tst) if x[0] == "attr" and x[2] == "primitive" and x[1][0] == "iter"]
+            its = subjects or [x for x in subterms(tst) if x[0] == "iter"]
             outer = [x for x in its if x[2][0] == "attr" and x[2][2] == "eqns" and x[2][1][0] == "param"]
             if its and not outer:
                 continue
@@ -918,7 +921,6 @@ def seed_fallthrough_events(ctx, rule="EXH-seed-fallthrough"):
             for y in (k[1] if k[0] in ("tuple", "list") else (k,)):
                 if y[0] == "name":
                     isinst.add(y[1].rsplit(".", 1)[-1])
-    kinds_ok = library or {"ClosedJaxpr", "Jaxpr"} <= isinst
     # descent: some module-level helper reachable from the arm both mentions the sampling primitives and lies on a call-graph cycle
     # (direct or mutual recursion over sub-jaxprs); a library traversal (jaxprs_in_params + subjaxprs) also counts
     mod_funcs = {}
@@ -941,6 +943,14 @@ def seed_fallthrough_events(ctx, rule="EXH-seed-fallthrough"):
     helpers = set(called)
     for f in called:
         helpers |= reach(f)
+    # generator helpers stay opaque call terms in the event log: their isinstance tests are read from their definitions
+    for f in helpers:
+        for n in ast.walk(mod_funcs[f]):
+            if isinstance(n, ast.Call) and isinstance(n.func, ast.Name) and n.func.id == "isinstance" and len(n.args) == 2:
+                k = n.args[1]
+                for y in (k.elts if isinstance(k, (ast.Tuple, ast.List)) else [k]):
+                    isinst.add(ast.unparse(y).rsplit(".", 1)[-1])
+    kinds_ok = library or {"ClosedJaxpr", "Jaxpr"} <= isinst
     mentions = {f for f in helpers if {"sample_p", "adev_sample_p"} <= {n.id for n in ast.walk(mod_funcs[f]) if isinstance(n, ast.Name)}}
     recursive = any(f in reach(f) for f in mentions) or (library and any(n.endswith("subjaxprs") for n in names))
     if not kinds_ok:
